@@ -18,7 +18,7 @@ META = {
     "technique": "explicit-state BFS over operation programs with prefix replay on a real SFTPClient/SFTPServer "
                  "pair, canonical state merging, compared step by step with a real local file",
     "text": "Modes {r, r+, w, w+, a, a+, x} x bufsize {-1, 0, 1, 2, 7, 65536} x pipelined {off, on} (quick: 28 of the "
-            "84 configurations), all programs up to depth 3 (quick) / 4 (thorough) over 14 (quick) / 18 (thorough) "
+            "84 configurations), all programs up to depth 3 (quick) / 4, and 5 for 28 configurations (thorough) over 14 (quick) / 18 (thorough) "
             "operations read(n)/read()/readline()/readline(n)/readlines()/write/seek(SET,CUR,END)/tell/flush/"
             "truncate/close on an 8-byte three-line file (absent for w, w+, x), merged on the complete state of "
             "BufferedFile + served file + server handle + reference file; each program is additionally closed "
@@ -412,7 +412,13 @@ def run_config(item, acc):
 
 def main(tier):
     SP.scale(8)
-    depth = 3 if tier == "quick" else 4
+    depth = 3 if tier == "quick" else 5
+
+    def depth_of(cfg):
+        # thorough: depth 5 for the 28 configurations of the quick tier (default and 7-byte buffer), 4 elsewhere
+        if tier == "quick":
+            return 3
+        return 5 if cfg[1] in (-1, 7) else 4
     ck = core.Check(
         PID, tier, "model_checking",
         "state = (client BufferedFile fields _pos/_realpos/_rbuffer/_wbuffer/_size/closed, served bytes, server "
@@ -428,11 +434,13 @@ def main(tier):
          "used by the operations, the served bytes, SFTPHandle.__tell and the descriptor offset, and the reference "
          "file's content and position; <=%d outstanding pipelined requests (the >100 branch is C29/C30)" % depth,
          "payload letters depend on VERIF_SEED, the line structure (xx\\nxx\\nxx) does not"])
-    items = [(tier, cfg, depth) for cfg in configs(tier)]
-    # heaviest (read/write) configurations first for load balance
-    items.sort(key=lambda it: (it[1][0] not in ("r+", "w+", "a+"), it[1][0]))
+    items = [(tier, cfg, depth_of(cfg)) for cfg in configs(tier)]
+    # heaviest (deepest, read/write) configurations first for load balance
+    items.sort(key=lambda it: (-it[2], it[1][0] not in ("r+", "w+", "a+"), it[1][0]))
     ck.merge(core.pmap(items, run_config))
-    ck.extra["bound"] = {"depth": depth, "alphabet": len(alphabet(tier)), "configs": len(items)}
+    ck.extra["bound"] = {"max_depth": depth, "alphabet": len(alphabet(tier)), "configs": len(items),
+                         "configs_by_depth": {str(d): sum(1 for it in items if it[2] == d)
+                                              for d in sorted({it[2] for it in items})}}
     ck.extra["content"] = core.jsonable(CONTENT)
     SP.remove_scratch()
     return ck.finish()
